@@ -227,6 +227,8 @@ func planC01(tier string, seed int64) (*Plan, error) {
 	aj, ab := attrFamilyJobs("H_c01_convert", thorough, false, []string{"core", allExt}, "")
 	lj, lb := longDocJobs("H_c01_convert", thorough, false, []string{all, core, cfg("gfm", "autoid", "unsafe")})
 	p.Jobs = append(append(append(append(p.Jobs, ej...), ej2...), aj...), lj...)
+	dj, db := deepNestJobs("H_c01_convert", thorough, []string{all, core, cfg("gfm,footnote", "", "unsafe,xhtml")})
+	p.Jobs = append(p.Jobs, dj...)
 	if thorough {
 		p.Jobs = append(p.Jobs, job("H_c01_convert", "cfg", core, "n", 4))
 		p.Jobs = append(p.Jobs, windowJobs("H_c01_convert", docs, seed+1, 150, 2, []string{all})...)
@@ -241,6 +243,7 @@ func planC01(tier string, seed int64) (*Plan, error) {
 		"extensions":    eb + "; thorough: a second pass at the quick lengths with unsafe+xhtml+hardwraps",
 		"attributes":    ab,
 		"long":          lb,
+		"deep":          db,
 		"budget":        "20M SSA instructions per path stands for 'terminates'; a budget hit is replayed natively under a 20 s watchdog",
 		"outside":       "longer free-form inputs, wider windows, user extensions, failing writers (C14)",
 	}
@@ -471,6 +474,9 @@ func planC05(tier string, seed int64) (*Plan, error) {
 	jobs = append(jobs, job("H_c05_parse", "cfg", core, "n", 6, "alpha", "a-=\n >"))
 	jobs = append(jobs, alphaJobs("H_c05_parse", []string{"blocks"}, 6, []string{core})...)
 	jobs = append(jobs, tokenJobs("H_c05_parse", []string{"nestlinks"}, 7, []string{core})...)
+	dj, db := deepNestJobs("H_c05_parse", tier == "thorough", []string{all, gfm})
+	jobs = append(jobs, dj...)
+	b["deep"] = db
 	p.Jobs = jobs
 	b["extra"] = "S(5,{a,|,-,:,LF}) with GFM (tables), S(6,{a,-,=,LF,space,>}) and S(6,blocks) core, every sequence of 7 tokens from 'nestlinks' (nested link/image/emphasis constructs)"
 	p.Bounds = b
@@ -1926,6 +1932,18 @@ func planC02(tier string, seed int64) (*Plan, error) {
 			}
 		}
 	}
+	// emphasis against a reference implementation of the delimiter-run algorithm (6.2): see harness/h/c02emph.go
+	ne := 5
+	if thorough {
+		ne = 6
+	}
+	for n := 1; n <= ne; n++ {
+		jobs = append(jobs, job("H_c02_emph", "n", n))
+	}
+	jobs = append(jobs, job("H_c02_emph", "n", ne+2, "alpha", "*a"), job("H_c02_emph", "n", ne+1, "alpha", "*_a "), job("H_c02_emph", "n", ne+2, "alpha", "_a."))
+	if thorough {
+		jobs = append(jobs, job("H_c02_emph", "n", 10, "alpha", "*a"), job("H_c02_emph", "n", 8, "alpha", "*_a"))
+	}
 	// HTML block start/end conditions (CommonMark 4.6): see harness/h/c02ref.go
 	nhtml := 0
 	for ind := 0; ind <= 3; ind++ {
@@ -1991,6 +2009,7 @@ func planC02(tier string, seed int64) (*Plan, error) {
 		"enumerated": "leading indentation 0-3, fence length 3-5, link style inline/full/collapsed/shortcut, hard break as backslash or two spaces, Setext vs ATX, ATX closing sequence, tab vs spaces for indented code (quick: the default spelling + 3 of 16 combinations per tree; thorough: 19 combinations)",
 		"tabs":       fmt.Sprintf("%d cases: chains of 1-3 container markers (block quote, bullet item) followed by every run of <= %d spaces/tabs and two symbolic letters; expected structure (paragraph, or indented code with its leading columns) from column arithmetic in the harness", ntabs, wsMax),
 		"refdef":     fmt.Sprintf("%d link reference definition boundary shapes (4.7): whitespace between colon and destination {space, line ending, line ending + 2 spaces, none} x destination {bare, <...>} x title {none; \" ' ( delimited, on one or two lines, separated by a space / a line ending / a line ending and a space} x trailer {nothing, a space, more text}, optionally paragraph text directly behind the definition (indented 0, 1, 3, 4 spaces or a tab), followed by a shortcut reference; label, destination, title and trailer letters symbolic; expected: definition with title / definition without title plus a paragraph / no definition, from 4.7", nref),
+		"emphasis":   fmt.Sprintf("one-line paragraphs of length 1..%d with every byte symbolic over {*, _, space, '.', ',', '!', a-z} (no leading/trailing space, some non-delimiter character, not starting with a bullet marker), and of length %d over {*,a}, %d over {*,_,a,space}, %d over {_,a,.} (thorough adds 10 over {*,a}, 8 over {*,_,a}); expected HTML from a reference implementation, in the harness, of the specification's delimiter-run classification and 'process emphasis' procedure", ne, ne+2, ne+1, ne+2),
 		"html":       fmt.Sprintf("%d HTML block shapes (4.6): start conditions 1-7 (type 1: every pair of opening and closing name from pre/script/style/textarea; type 6: 12 block tag names, opening and closing form; type 7: an unknown tag alone on its line), 0-3 columns of indentation, end condition on the first line or on a later line, text behind the end condition, a blank line for types 6-7; the letter case of the first, middle and last tag-name letter is symbolic, the other letters lower or upper case; content letters symbolic", nhtml),
 		"spec":       fmt.Sprintf("%d examples of _test/spec.json (expected HTML from the file): final newline removed; an unrelated paragraph / ATX heading / thematic break with symbolic letters placed before; and, for the %d examples whose expected HTML ends in a closed block (p, h1-6, hr, blockquote, ul, ol), an extra final newline and the same unrelated block placed after; %d examples end in a code or HTML block and are skipped for the 'after' rewrites by that stated rule", nspec, nspec-nskip, nskip),
 		"comparison": "byte equality after deleting newlines directly behind '>' or directly in front of '<' and trailing newlines (a subset of what the specification's own normaliser ignores)",
